@@ -49,6 +49,8 @@ def families(ss, rng):
     fams['gamma'] = (lambda mode, n: ss.gamma(a=P(a, mode, n), scale=P(sc4, mode, n)), sps.gamma(a=a, scale=sc4), (0, np.inf, True), False)
     il, ih = rng.randrange(-4, 3), rng.randrange(4, 12)
     fams['randint'] = (lambda mode, n: ss.randint(low=P(il, mode, n), high=P(ih, mode, n)), sps.randint(low=il, high=ih), (il, ih, True), True)
+    nl_, nh_ = -rng.randrange(2, 6), rng.randrange(1, 5)
+    fams['randint_negative_low'] = (lambda mode, n: ss.randint(low=P(nl_, mode, n), high=P(nh_, mode, n)), sps.randint(low=nl_, high=nh_), (nl_, nh_, True), True)
     pb = round(rng.uniform(0.1, 0.9), 2)
     fams['bernoulli'] = (lambda mode, n: ss.bernoulli(p=P(pb, mode, n)), sps.bernoulli(p=pb), (0, 1, False), True)
     cv = round(rng.uniform(-3, 3), 2)
@@ -94,7 +96,7 @@ def run(ctx):
                     v = np.asarray(d.rvs(uids))
                 except Exception as E:
                     w = dict(W, error=f'{type(E).__name__}: {E}'[:200])
-                    if name == 'randint' and mode != 'scalar': w['finding_key'] = 'randint-per-agent-path'
+                    if name.startswith('randint') and mode != 'scalar': w['finding_key'] = 'randint-per-agent-path'
                     viol(f'{name} with {mode} parameters raised {type(E).__name__}: {str(E)[:120]}', w); continue
                 out[mode] = v
                 ctx.count((name, mode, seed), nontrivial=True); ctx.dist(f'{name}/{mode}')
@@ -103,14 +105,14 @@ def run(ctx):
                 # support
                 if np.any(vf < lo - 1e-9) or (np.any(vf >= hi) if hi_open and np.isfinite(hi) else np.any(vf > hi + 1e-9)):
                     w = dict(W, min=float(vf.min()), max=float(vf.max()), support=[lo, hi])
-                    if name == 'randint' and mode != 'scalar' and vf.max() == hi: w['finding_key'] = 'randint-per-agent-path'
+                    if name.startswith('randint') and mode != 'scalar' and vf.max() == hi: w['finding_key'] = 'randint-per-agent-path'
                     viol(f'{name}/{mode}: variates outside the support [{lo}, {hi}{")" if hi_open else "]"}: min {vf.min()}, max {vf.max()}', w)
                 if integer and name != 'bernoulli' and not np.all(vf == np.round(vf)): viol(f'{name}/{mode}: non-integer variates', W)
                 # per-agent path == quantile function of the same-seed uniforms
                 if mode != 'scalar' and ref is not None:
                     u = rng0.random(int(np.asarray(sim.people.slot.raw[uids]).max()) + 1, dtype=ss.dtypes.float)[np.asarray(sim.people.slot.raw[uids])]
                     if name == 'bernoulli': exp = u < ref.args[0] if ref.args else u < ref.kwds['p']
-                    elif name == 'randint': exp = np.floor(u.astype(float) * (hi - lo) + lo)
+                    elif name.startswith('randint'): exp = np.floor(u.astype(float) * (hi - lo) + lo)
                     else: exp = ref.ppf(u)
                     if exp is not None and not np.allclose(vf, np.asarray(exp, dtype=float), rtol=1e-6, atol=1e-9):
                         j = int(np.flatnonzero(~np.isclose(vf, np.asarray(exp, dtype=float), rtol=1e-6, atol=1e-9))[0])
@@ -119,8 +121,8 @@ def run(ctx):
                     idx = rng.sample(range(len(uids)), 6)
                     if name == 'uniform':
                         for j in idx: uterms.append(f'({qlit(float(u[j]))}, {qlit(lo)}, {qlit(hi)}, {qlit(float(vf[j]))})'); umeta.append(dict(W, agent=j))
-                    if name == 'randint':
-                        for j in idx: rterms.append(f'({qlit(float(u[j]))}, {qlit(lo)}, {qlit(hi)}, {int(vf[j])}%Z)'); rmeta.append(dict(W, agent=j))
+                    if name.startswith('randint'):
+                        for j in idx: rterms.append(f'({qlit(float(u[j]))}, {qlit(lo)}, {qlit(hi)}, ({int(vf[j])})%Z)'); rmeta.append(dict(W, agent=j))
                     if name == 'bernoulli':
                         pbv = ref.kwds['p'] if ref.kwds else ref.args[0]
                         for j in idx: bterms.append(f'({qlit(float(u[j]))}, {qlit(pbv)}, {"true" if vf[j] else "false"})'); bmeta.append(dict(W, agent=j))
@@ -137,14 +139,14 @@ def run(ctx):
                         se = np.sqrt(var / len(vf))
                         if abs(vf.mean() - mean) > 6 * se + 1e-9:
                             w = dict(W, sample_mean=float(vf.mean()), reference_mean=mean)
-                            if name == 'randint' and mode != 'scalar': w['finding_key'] = 'randint-per-agent-path'
+                            if name.startswith('randint') and mode != 'scalar': w['finding_key'] = 'randint-per-agent-path'
                             viol(f'{name}/{mode}: sample mean {vf.mean():.4f} vs {mean:.4f} of the reference law (6 sigma = {6 * se:.4f})', w)
                         if var > 0:
                             kurt = float(ref.stats(moments='k')) + 3 if np.isfinite(float(ref.stats(moments='k'))) else 9.0
                             sev = var * np.sqrt(max(kurt - 1, 0.5) / len(vf))
                             if abs(vf.var() - var) > 8 * sev + 1e-9:
                                 w = dict(W, sample_var=float(vf.var()), reference_var=var)
-                                if name == 'randint' and mode != 'scalar': w['finding_key'] = 'randint-per-agent-path'
+                                if name.startswith('randint') and mode != 'scalar': w['finding_key'] = 'randint-per-agent-path'
                                 viol(f'{name}/{mode}: sample variance {vf.var():.4f} vs {var:.4f} of the reference law', w)
                 elif name == 'constant' and not np.all(vf == lo): viol(f'constant/{mode}: variates differ from the constant {lo}', W)
             # callable == array (same seed, same stream)
@@ -192,6 +194,20 @@ def run(ctx):
                     viol(f'{fam} with parameters in {punit} in a {unit}/{dt} module: variates are not the plain variates x the unit factor {fac} (ratios {ratio.min():.6f}..{ratio.max():.6f})', dict(unit=unit, dt=dt, punit=punit, family=fam))
                 elif fac is None and ratio.max() - ratio.min() > 1e-6 * abs(ratio.mean()):
                     viol(f'{fam} with parameters in {punit} in a {unit}/{dt} module: the variates are not a constant multiple of the plain variates', dict(unit=unit, dt=dt, punit=punit, family=fam))
+    # a time-wrapped callable probability is evaluated afresh at every call
+    try:
+        s3 = ss.Sim(n_agents=4000, dur=3, verbose=0, diseases=ss.SIS()); s3.init(); mod3 = s3.diseases.sis
+        for wrap in ('time_prob', 'plain'):
+            calls = dict(k=0)
+            def pfun(self, sim, uids, calls=calls): return np.full(len(uids), [0.9, 0.05][min(calls['k'], 1)])
+            pv = ss.time_prob(pfun, parent_dt=1.0, parent_unit='year').init(update_values=False) if wrap == 'time_prob' else pfun
+            d = ss.bernoulli(p=pv); d.init(trace='c05_tpcall_' + wrap, seed=rng.randrange(1, 10**6), sim=s3, module=mod3, force=True)
+            f1 = float(np.mean(d.rvs(s3.people.auids))); calls['k'] = 1; d.jump(); f2 = float(np.mean(d.rvs(s3.people.auids)))
+            ctx.count(('tp-callable', wrap), nontrivial=True); ctx.dist('callable probability re-evaluated')
+            if abs(f1 - 0.9) > 0.03 or abs(f2 - 0.05) > 0.03:
+                viol(f'bernoulli(p={wrap} callable): the callable returned 0.9 at the first call and 0.05 at the second; observed frequencies {f1:.3f} and {f2:.3f}', dict(wrap=wrap, f1=f1, f2=f2))
+    except Exception as E:
+        viol(f'bernoulli with a (time-wrapped) callable probability raised {type(E).__name__}: {E}', dict(probe='tp-callable'))
     # ---------------------------------------------------------------- Coq twins
     ctx.cov['replayed_in_coq'] = dict(uniform=len(uterms), randint=len(rterms), bernoulli=len(bterms))
     bad = ctx.coq_mismatches('c05unif', IMPORTS, 'Q * Q * Q * Q', uterms, 'Definition ok (c : Q * Q * Q * Q) : bool := let \'(u, lo, hi, v) := c in Qclose (1 # 100000) (uniform_ppf_q_gen u lo hi) v.', shard=300)
